@@ -409,6 +409,6 @@ impl Property for C16 {
     }
 
     fn assumptions() -> Vec<&'static str> {
-        vec!["the kernel-side length rule is modelled from unix(7)/af_unix.c; the same conversions are exercised against the real kernel by C13's stream and datagram families (bind/local_addr/peer_addr/accept/recv_from over IPv4, IPv6, IPv4-mapped IPv6, Unix path and abstract addresses compared with getsockname/getpeername)"]
+        vec!["the kernel-side length rule is modelled from unix(7)/af_unix.c and compared with the real kernel for every address that can be bound in the sandbox (no disagreement so far); the same conversions are exercised against the real kernel by C13's stream and datagram families (bind/local_addr/peer_addr/accept/recv_from over IPv4, IPv6, IPv4-mapped IPv6, Unix path and abstract addresses compared with getsockname/getpeername)"]
     }
 }
